@@ -185,3 +185,10 @@ package keeper
 // verif:func (Keeper).HandleRegisterRelayer
 //@ nopanic dryrun
 //@ modifies xibc(ctx)
+
+// ---- gRPC listing of a client's consensus states: every stored height is listed, whatever bytes it contains (C19) ----
+// (the page callback sees the keys below "clients/<name>/consensusStates/": a consensus state key is the 16 raw
+// big-endian bytes of its height, metadata keys are longer)
+// verif:func (Keeper).ConsensusStates$1
+//@ ensures [every-height-is-listed] len(key) == 16 && result1 == nil ==> result0
+//@ ensures [metadata-skipped] len(key) != 16 ==> !result0 && result1 == nil
